@@ -238,9 +238,9 @@ def gen_case(rng, size=None):
     case['nget'] = rng.choice([4, 8, 16])
     case['gseed'] = rng.randrange(1 << 30)
     case['size'] = size
-    if rng.random() < 0.3:
+    if rng.random() < 0.4:
         # a history BEFORE set-up: quantities are read through the index lists, then some references are re-pointed
-        case['pre'] = {'seed': rng.randrange(1 << 30), 'reads': rng.random() < 0.8, 'repoint': rng.choice([1, 2, 3])}
+        case['pre'] = {'seed': rng.randrange(1 << 30), 'reads': rng.random() < 0.9, 'repoint': rng.choice([1, 2, 3])}
     return case
 
 
@@ -264,15 +264,23 @@ def apply_pre(ss, case, auto):
             for pn, p in m.params.items():
                 if isinstance(p, IdxParam) and p.model is not None and (p.model in ss.groups or p.model in ss.models):
                     tgt = ss.groups[p.model] if p.model in ss.groups else ss.models[p.model]
-                    try:
-                        tgt.get(src='u', idx=p.v, attr='v', allow_none=True, default=0)
-                    except Exception:     # noqa  (dangling / incompatible references are judged elsewhere)
-                        pass
+                    for an in (False, True):        # the way a mandatory link asks; if that raises, the way an optional one does
+                        try:
+                            tgt.get(src='u', idx=p.v, attr='v', allow_none=an, default=0)
+                            break
+                        except Exception:     # noqa  (dangling / incompatible references are judged elsewhere)
+                            pass
     if pre['reads']:
         read_all()
     done = 0
     order = list(range(len(case['adds'])))
     rng.shuffle(order)
+
+    def through_group(k):
+        m_ = ss.models[case['adds'][k]['model']]
+        return 0 if any(isinstance(p_, IdxParam) and p_.model in ss.groups and case['adds'][k]['params'].get(n_) is not None
+                        for n_, p_ in m_.params.items()) else 1
+    order.sort(key=through_group)       # references resolved through a GROUP first (stable: random within each class)
     for k_ in order:
         if done >= pre['repoint']:
             break
@@ -281,7 +289,7 @@ def apply_pre(ss, case, auto):
         my = auto.get('#%d' % k_)
         for pn, v in list(a['params'].items()):
             p = m.params.get(pn)
-            if not isinstance(p, IdxParam) or p.model is None or v is None or p.get_property('unique'):
+            if not isinstance(p, IdxParam) or p.model is None or v is None:
                 continue
             if p.model not in ss.models and p.model not in ss.groups:
                 continue
@@ -289,6 +297,10 @@ def apply_pre(ss, case, auto):
             if len(cur) != 1:
                 continue
             others = [j for j in cur[0][0].idx.v if not (j == res(v) and type(j) is type(res(v)))]
+            if p.get_property('unique'):
+                # a reference that must be unique within the model: only targets no other device of the model names
+                taken = list(p.v)
+                others = [j for j in others if not any(j == t and type(j) is type(t) for t in taken)]
             if not others:
                 continue
             new = rng.choice(others)
